@@ -234,7 +234,8 @@ def match_template(template, program):
                     val = float(res[-1])
 
                 if key in argmatch:
-                    if argmatch[key] != val:
+                    # the values are solved for numerically: compare them up to rounding
+                    if not np.isclose(argmatch[key], val, rtol=1e-9, atol=1e-12):
                         raise TemplateError("Template parameter {} matches inconsistent values: "
                                             "{} and {}".format(key, val, argmatch[key]))
 
